@@ -80,6 +80,10 @@ MCLiveSpec == MCSpec /\ \A p \in Consumer : WF_mcvars(DoGetRecheck(p))
 
 AllStepProps == [][StepProps]_mcvars
 
+\* NOT a property: refuted by MC_ReqQueue_nilreach.cfg, which shows that the deviation
+\* NilSwallowed is really reachable in the model (the nil configurations are not vacuous)
+NoSwallowEver == NSwallowed = 0
+
 \* the histories do not influence behaviour: hiding them leaves the reachable
 \* process/content states unchanged (used only by the liveness configuration)
 NoHistoryView == <<q, cap, clock, pc, op, ret, waiting, cnt>>
